@@ -75,12 +75,12 @@ Print Assumptions C13_trace_recv_emitted.
    application or mieru itself started closing: close request / response, queued data, retransmissions) that the
    acceptor accepts never shows one sequence number with two contents - type, fragment marker or payload - on
    either endpoint; a data fragment and a close request sharing a number are rejected *)
-Theorem C13_trace_retx_same_across_close : forall pre post l, late_final pre post = Some l ->
+Theorem C13_trace_retx_same_across_close_partial : forall pre post l, late_final pre post = Some l ->
   forall X g1 g2, In g1 (emitted X pre ++ l_chk (getL X l)) -> In g2 (emitted X pre ++ l_chk (getL X l)) ->
   is_seq X (g_ty g1) = true -> is_seq X (g_ty g2) = true -> g_seq g1 = g_seq g2 ->
   g_ty g1 = g_ty g2 /\ g_frag g1 = g_frag g2 /\ g_pay g1 = g_pay g2.
 Proof. exact accept_closed_retx_same. Qed.
-Print Assumptions C13_trace_retx_same_across_close.
+Print Assumptions C13_trace_retx_same_across_close_partial.
 
 (* what is checked after Close (l_chk): every sequenced emission except closeSessionRequests - and of those each
    endpoint's first one is checked too (late_step); the exempted ones are the stateless replies of the underlay for a
@@ -89,6 +89,45 @@ Theorem C13_trace_after_close_coverage : forall pre post l, late_final pre post 
   forall X g, In g (emitted X post) -> is_seq X (g_ty g) = true -> g_ty g <> ty_close_req -> In g (l_chk (getL X l)).
 Proof. exact late_covers. Qed.
 Print Assumptions C13_trace_after_close_coverage.
+
+(* the FULL sentence "a sequence number never carries two contents" over ALL emitted segments is refuted on the
+   faithful model: an accepted session in which the client's number 1 carries a data segment before Close and a
+   closeSessionRequest after it - the stateless reply of the underlay for a session it no longer has, whose seq is a copy
+   of the peer's unAckSeq (underlay_packet.go, "Session is not registered").  Recorded finding
+   stateless-close-reply-reuses-sequence-number; harmless: receivers handle close requests without looking at seq. *)
+Theorem C13_seq_reuse_after_close_refuted : exists pre post g1 g2,
+  accept_closed pre post = true /\ In g1 (emitted false (pre ++ post)) /\ In g2 (emitted false (pre ++ post)) /\
+  is_seq false (g_ty g1) = true /\ is_seq false (g_ty g2) = true /\ g_seq g1 = g_seq g2 /\ g_ty g1 <> g_ty g2.
+Proof. exact seq_reuse_after_close. Qed.
+Print Assumptions C13_seq_reuse_after_close_refuted.
+
+(* acks stay safe while closing: every datagram emitted after Close acknowledges only numbers all of which had been
+   delivered to its emitter before (receipts before and after Close count) *)
+Theorem C13_trace_ack_safe_after_close : forall pre post l, late_final pre post = Some l ->
+  forall p1 X g p2, post = p1 ++ ES X g :: p2 -> forall i, (N.of_nat i < g_unack g)%N -> delivered X (pre ++ p1) i.
+Proof. exact accept_closed_ack_safe. Qed.
+Print Assumptions C13_trace_ack_safe_after_close.
+
+(* numbering under partial Writes: writeChunk numbers fragment after fragment and may stop after k of n fragments (write
+   deadline passed; the session stays usable).  Whatever Writes happened and wherever each stopped, the numbers queued
+   are ns, ns+1, ... without a hole and the counter stands right behind the last one ... *)
+Theorem C13_seq_gapless_with_partial_writes : forall ops ns, let '(ns', q) := write_all ns ops in
+  ns' = ns + length q /\ map fst q = seq ns (length q).
+Proof. exact write_all_gapless. Qed.
+Print Assumptions C13_seq_gapless_with_partial_writes.
+
+(* ... a partial Write is k Write steps of the transition system, so C13_seq_gapless covers every state it leads to ... *)
+Theorem C13_partial_write_is_a_run : forall cs k s, reach s -> exists s',
+  run s (map LWrite (firstn k cs)) s' /\ reach s' /\ assigned s' = assigned s ++ firstn k cs /\
+  sent_hi s' = sent_hi s /\ fwd s' = fwd s /\ next_recv s' = next_recv s.
+Proof. exact partial_write_run. Qed.
+Print Assumptions C13_partial_write_is_a_run.
+
+(* ... and reserving the numbers of all fragments before the loop is refuted: a Write that stops early leaves a hole *)
+Theorem C13_reserve_up_front_refuted : exists ops, let '(ns', q) := write_all_reserve 0 ops in
+  map fst q <> seq 0 (length q) /\ ns' <> length q.
+Proof. exact reserve_up_front_leaves_hole. Qed.
+Print Assumptions C13_reserve_up_front_refuted.
 
 (* in the transition system a control segment (the close session request, c_ty c = closeSessionRequest, like any
    LWrite) is numbered in the very step that queues it: its number is the length of the history, no segment
